@@ -29,7 +29,9 @@ func init() {
 			"D-reindex-agreement — the header writer in append (constant format: open delimiter, ref, separator, size, close delimiter; size printed base-10 from a 32-bit unsigned) and the three header readers (walkPack, readHeader, delete) use the same three delimiter bytes, base 10 and 32 bits, and delete's walk-back length counts exactly the literal bytes of the format; the deleted-marker regexp matches exactly what delete writes (and no real blobref) and both pack walkers consult it; index rows are written by append and by reindex through the same codec (blob.Ref.String → blobMeta.String) and parseBlobMeta reads the same fields in the same order. " +
 			"D-dele-order — in diskpacked.delete the header is rewritten to the deleted marker (WriteAt succeeded) before the body is destroyed (punch hole / zero fill), so a pack walk never reports a live header over a destroyed body; RemoveBlobs commits the index deletions only after all delete workers were joined (delete reads the row it is about to lose). " +
 			"D-walk-extent — a pack walker reports an entry (walkPack calls its walker / StreamBlobs sends) only where a read of the header's declared size succeeded or the extent was compared with the pack file's size, i.e. a header whose body was torn by a crash is not reported as a blob. " +
-			"NOT decided: torn writes and what a particular crash image looks like, fsync/rename semantics of the OS or of a remote VFS (sftp's Sync is a no-op), directory fsync, durability of the KV index file, what HashName()/Digest() may contain, recovery behaviour (re-opening a pack with a torn tail, Reindex on it), removal crash states (index row still present over a zeroed body), equality of fetched bytes with received bytes.",
+			"F-destroy — who may destroy a path of the file-per-blob store. A table of path-destroying primitives (os/syscall/pkg-sftp: Remove, RemoveAll, Rename source and destination, Truncate, Create, WriteFile, OpenFile with write access or O_TRUNC unless O_CREATE|O_EXCL) is closed under parameter forwarding through static calls and through dispatch on files.VFS (every implementer's method contributes its effects to every interface invoke). Every site in packages files, localdisk and the VFS implementers' packages at which the destroyed path is computed (not merely forwarded), and every invoke of a destroying VFS method anywhere in the module, must be one of: the path is Name() of the file the same call obtained from VFS.TempFile; the path lies in a directory os.MkdirTemp created in the same call; the site is reached only from RemoveBlobs of a blobserver.BlobRemover (static callers only, no function-value or interface use); the effect is rename-over in ReceiveBlob itself (the atomic publish, whose operands and order F-order decides); the effect is rmdir; or the effect is a non-recursive unlink of a path that a successful VFS.ReadDirNames of the same value dominates (an empty-directory clean-up; a recursive primitive reachable from any VFS implementation's RemoveDir is a violation here). Functions that forward a path parameter must be VFS methods or unexported and never used as values. " +
+			"D-destroy — who may destroy bytes of a pack. (1) no function of package diskpacked removes, renames, truncates or re-creates a file by path (OpenFile without O_TRUNC is the only path-level write access, and the handle must stay local or become storage.writer). (2) every call in the package that writes, WriteAts, truncates, seeks or takes the descriptor of an *os.File, or hands one to a writer/hook, is classified by the handle's origin: handles from os.Open cannot write; the live append handle (storage.writer) may be written only in append, sought only neutrally (Seek(0, SeekCurrent/SeekEnd)) and moved back/truncated only as the roll-back of the current failed append — the offset is s.size (or the handle's position) read before the call's first write and first s.size update, and no return that may report success is reachable afterwards (a roll-back helper is followed through its static call sites); a handle opened writable locally may be modified only in a function reached only from RemoveBlobs, behind a successful meta(<ref parameter>) lookup, on filename(row.file), at WriteAt positions derived from row.offset, Seek(row.offset, SeekStart), exactly row.size bytes behind that Seek, or a hook call with exactly (row.offset, row.size) (a zero-fill helper is followed likewise). (3) index rows are deleted (Delete on the KeyValue or a batch; Wipe never) only in functions reached only from RemoveBlobs, with key String() of one of the refs passed in. " +
+			"NOT decided: that a blob path is not aliased by another spelling, destroyers outside these packages (tools operating on the directory), whether Name() of a VFS.TempFile result is the created path, that storage.size equals the pack's length between calls (the roll-back offset is only shown to be the value captured before this call's writes), roll-backs placed in function literals/defers (reported undecided), torn writes and what a particular crash image looks like, fsync/rename semantics of the OS or of a remote VFS (sftp's Sync is a no-op), directory fsync, durability of the KV index file, what HashName()/Digest() may contain, recovery behaviour (re-opening a pack with a torn tail, Reindex on it), removal crash states (index row still present over a zeroed body), equality of fetched bytes with received bytes.",
 		RuleDocs: map[string]string{
 			"F-order":             "files.(*Storage).ReceiveBlob: Rename(tmp.Name(), blobPath(ref)) is dominated by the success edges of all writes into tmp, tmp.Sync(), tmp.Close(); nil-error returns are dominated by Rename success",
 			"F-cleanup":           "F-order(iii), shared with C13 as G-tmp: temp-file cleanup registered right after TempFile succeeds, removes unless the success flag is set, flag set only after Rename succeeded",
@@ -37,12 +39,14 @@ func init() {
 			"D-order":             "diskpacked.append: data writes → size check → Sync → index.Set → nil return, each on the success edge of the previous; ReceiveBlob duplicate-ack behind {meta, Stat, size >= offset+size}",
 			"D-reindex-agreement": "pack header writer vs. readers (delimiters, base, bit size, walk-back length), deleted-marker regexp vs. what delete writes, index row codec shared by append/reindex/parseBlobMeta",
 			"D-dele-order":        "diskpacked.delete: header rewrite succeeded before body destruction; RemoveBlobs: join of delete workers precedes the index CommitBatch",
+			"F-destroy":           "files/localdisk/VFS implementers: every computed path handed (directly, through forwarding helpers or through files.VFS dispatch) to a removing/renaming/truncating primitive is the receive's own TempFile name, inside a fresh MkdirTemp dir, reached only from RemoveBlobs, the publishing Rename's destination in ReceiveBlob, or a non-recursive removal of a directory just listed by ReadDirNames",
+			"D-destroy":           "diskpacked: no path-level destroyer; storage.writer written only in append, rewound/truncated only as roll-back of the current failed append to the offset captured before its first write; locally opened writable packs modified only below RemoveBlobs within the removed blob's row extent; index rows deleted only below RemoveBlobs for the refs passed in",
 			"D-walk-extent":       "pack walkers (walkPack's walker call, StreamBlobs' send): an entry is reported only after its body was read in full or its extent was compared with the file size",
 		},
 		Run:       runC03,
 		DesignRef: "DESIGN.md §4 C03",
-		Technique: "static analysis: dominance on err==nil edges (must-precede) over go/ssa, value dependence, CFG path exploration for the cleanup pairing, constant/format-string table agreement between writers and readers",
-		LevelText: "Decides structural necessary conditions only: the write ordering (write→sync→close→rename→ack; write→sync→index→ack; header-marked-deleted→body destroyed), the visibility filters (.dat only) and the agreement of the on-disk codecs between writers and readers. Does not decide the behaviour on any concrete crash image, OS/VFS durability semantics, or recovery.",
+		Technique: "static analysis: dominance on err==nil edges (must-precede) over go/ssa, value dependence, CFG path exploration for the cleanup pairing, constant/format-string table agreement between writers and readers; who-may-destroy: a table of path/handle-destroying primitives closed under parameter forwarding (static calls, files.VFS dispatch), classification of each root site by value dependence of the destroyed path/extent and by who-may-reach (static callers, function-value uses, interface invoke sites)",
+		LevelText: "Decides structural necessary conditions only: the write ordering (write→sync→close→rename→ack; write→sync→index→ack; header-marked-deleted→body destroyed), the visibility filters (.dat only), the agreement of the on-disk codecs between writers and readers, and that no code of the two stores other than the requested removal (and the roll-back of a failed, unacknowledged append) can destroy a final blob file, bytes of a pack or an index row. Does not decide the behaviour on any concrete crash image, OS/VFS durability semantics, or recovery.",
 	})
 }
 
@@ -60,6 +64,9 @@ func runC03(p *Program, r *Reporter) {
 	c03RuleDAgreement(p, r)
 	c03RuleDDeleOrder(p, r)
 	c03RuleDWalkExtent(p, r)
+	dm := c03GetDestroyModel(p)
+	c03RuleFDestroy(p, r, dm)
+	c03RuleDDestroy(p, r, dm)
 }
 
 // ---------------------------------------------------------------------------
@@ -1813,9 +1820,11 @@ func c03RuleDDeleOrder(p *Program, r *Reporter) {
 				continue
 			}
 			// the handle handed to something that writes: an io.Writer argument, or the punchHole hook
+			// (or to a function of this module: an extracted zero-fill helper)
 			_, asWriter := arg.(*ssa.MakeInterface)
 			dyn := c.Callee() == nil && !v.Call.IsInvoke()
-			if asWriter || dyn {
+			helper := c.Callee() != nil && InModule(c.Callee()) && c03IsOSFile(arg.Type())
+			if asWriter || dyn || helper {
 				destroy = append(destroy, v)
 			}
 			break
@@ -2025,4 +2034,1133 @@ func c03RuleDWalkExtent(p *Program, r *Reporter) {
 	if n == 0 {
 		r.Violation(rule, FuncKey(sb)+"#send", p.Pos(sb.Pos()), "StreamBlobs never sends")
 	}
+}
+
+// ---------------------------------------------------------------------------
+// Who may destroy (F-destroy, D-destroy)
+//
+// A model of the calls that can make bytes under a path disappear: a table of
+// primitives (os, syscall, pkg/sftp) plus every module function that hands one
+// of its own parameters to such a call ("pass-through destroyers", computed to
+// a fixpoint through static calls and through the files.VFS interface). The
+// sites at which the destroyed path is *computed* (not merely forwarded) are
+// the roots; they are classified by what the path value is and by who can
+// reach the site.
+
+type c03Kind int
+
+const (
+	c03KUnlink    c03Kind = iota // removes a file or an EMPTY directory
+	c03KRmdir                    // removes an empty directory only
+	c03KRmtree                   // removes recursively
+	c03KRenameSrc                // the path stops naming the file
+	c03KRenameDst                // the file under the path is replaced
+	c03KTrunc                    // content destroyed in place (Create, WriteFile, Truncate, O_TRUNC)
+	c03KWriteOpen                // an existing file is opened writable
+)
+
+func (k c03Kind) String() string {
+	return [...]string{"unlink", "rmdir", "remove-recursively", "rename-away", "rename-over", "truncate/overwrite", "open-writable"}[k]
+}
+
+type c03Effect struct {
+	arg  int // index into CallSite.Args() (receiver first)
+	kind c03Kind
+	via  string // the primitive that finally acts, for diagnostics
+}
+
+const c03Sftp = "github.com/pkg/sftp"
+
+// c03Prims: the path-destroying primitives. One line of reason each: what the
+// call does to the path argument.
+var c03Prims = map[string][]c03Effect{
+	"os||Remove":                        {{0, c03KUnlink, "os.Remove"}},    // unlink, or rmdir of an empty directory
+	"os||RemoveAll":                     {{0, c03KRmtree, "os.RemoveAll"}}, // recursive
+	"os||Rename":                        {{0, c03KRenameSrc, "os.Rename"}, {1, c03KRenameDst, "os.Rename"}},
+	"os||Truncate":                      {{0, c03KTrunc, "os.Truncate"}},      // cuts the file
+	"os||Create":                        {{0, c03KTrunc, "os.Create"}},        // O_TRUNC
+	"os||WriteFile":                     {{0, c03KTrunc, "os.WriteFile"}},     // O_TRUNC
+	"io/ioutil||WriteFile":              {{0, c03KTrunc, "ioutil.WriteFile"}}, // O_TRUNC
+	"syscall||Unlink":                   {{0, c03KUnlink, "syscall.Unlink"}},
+	"syscall||Rmdir":                    {{0, c03KRmdir, "syscall.Rmdir"}}, // ENOTEMPTY on a populated directory
+	"syscall||Rename":                   {{0, c03KRenameSrc, "syscall.Rename"}, {1, c03KRenameDst, "syscall.Rename"}},
+	"syscall||Truncate":                 {{0, c03KTrunc, "syscall.Truncate"}},
+	c03Sftp + "|Client|Remove":          {{1, c03KUnlink, "sftp.Client.Remove"}},         // file or empty directory
+	c03Sftp + "|Client|RemoveDirectory": {{1, c03KRmdir, "sftp.Client.RemoveDirectory"}}, // SSH_FXP_RMDIR
+	c03Sftp + "|Client|RemoveAll":       {{1, c03KRmtree, "sftp.Client.RemoveAll"}},
+	c03Sftp + "|Client|Rename":          {{1, c03KRenameSrc, "sftp.Client.Rename"}, {2, c03KRenameDst, "sftp.Client.Rename"}},
+	c03Sftp + "|Client|PosixRename":     {{1, c03KRenameSrc, "sftp.Client.PosixRename"}, {2, c03KRenameDst, "sftp.Client.PosixRename"}},
+	c03Sftp + "|Client|Truncate":        {{1, c03KTrunc, "sftp.Client.Truncate"}},
+	c03Sftp + "|Client|Create":          {{1, c03KTrunc, "sftp.Client.Create"}}, // O_TRUNC
+}
+
+func c03PrimKey(f *ssa.Function) string {
+	if f == nil {
+		return ""
+	}
+	if o := f.Origin(); o != nil {
+		f = o
+	}
+	var pkg *types.Package
+	if f.Pkg != nil {
+		pkg = f.Pkg.Pkg
+	} else if f.Object() != nil {
+		pkg = f.Object().Pkg()
+	}
+	if pkg == nil {
+		return ""
+	}
+	recv := ""
+	if r := f.Signature.Recv(); r != nil {
+		if n := NamedOf(r.Type()); n != nil {
+			recv = n.Obj().Name()
+		}
+	}
+	return pkg.Path() + "|" + recv + "|" + f.Name()
+}
+
+// c03OpenEffects: what an OpenFile call does to its path, from its flag
+// argument. Exclusive creation never touches an existing file.
+func c03OpenEffects(pathArg int, flag ssa.Value, via string) []c03Effect {
+	const (
+		oWRONLY = 0x1
+		oRDWR   = 0x2
+		oCREATE = 0x40
+		oEXCL   = 0x80
+		oTRUNC  = 0x200
+	)
+	fl, ok := ConstInt(flag)
+	if !ok {
+		return []c03Effect{{pathArg, c03KWriteOpen, via + "(non-constant flags)"}}
+	}
+	switch {
+	case fl&oCREATE != 0 && fl&oEXCL != 0:
+		return nil
+	case fl&oTRUNC != 0:
+		return []c03Effect{{pathArg, c03KTrunc, via + "(O_TRUNC)"}}
+	case fl&(oWRONLY|oRDWR) != 0:
+		return []c03Effect{{pathArg, c03KWriteOpen, via}}
+	}
+	return nil
+}
+
+type c03Root struct {
+	c    CallSite
+	arg  int
+	effs []c03Effect
+}
+
+type c03DestroyModel struct {
+	p       *Program
+	vfs     *types.Interface
+	derived map[*ssa.Function][]c03Effect // pass-through destroyers: arg = index into fn.Params
+	order   []*ssa.Function               // derived, in discovery order
+	implFn  map[*ssa.Function]string      // declared methods of VFS implementers -> VFS method name
+	vfsEff  map[string][]c03Effect        // VFS method -> union of the implementers' effects
+	invokes map[string][]CallSite         // VFS method -> interface invoke sites in the module
+	roots   []*c03Root
+	rootIdx map[ssa.Instruction]map[int]*c03Root
+}
+
+// c03PathParam: the parameter a path value is, looking through
+// representation-only transforms (ToSlash, Clean).
+func c03PathParam(v ssa.Value) *ssa.Parameter {
+	for i := 0; i < 8; i++ {
+		v = originValue(v)
+		if prm, ok := v.(*ssa.Parameter); ok {
+			return prm
+		}
+		c, ok := v.(*ssa.Call)
+		if !ok || len(c.Call.Args) != 1 {
+			return nil
+		}
+		f := c.Call.StaticCallee()
+		if !(funcIs(f, "path/filepath", "", "ToSlash") || funcIs(f, "path/filepath", "", "FromSlash") || funcIs(f, "path/filepath", "", "Clean") || funcIs(f, "path", "", "Clean")) {
+			return nil
+		}
+		v = c.Call.Args[0]
+	}
+	return nil
+}
+
+func c03ParamIndex(prm *ssa.Parameter) int {
+	for i, q := range prm.Parent().Params {
+		if q == prm {
+			return i
+		}
+	}
+	return -1
+}
+
+func c03GetDestroyModel(p *Program) *c03DestroyModel {
+	m := &c03DestroyModel{p: p, vfs: p.Iface(c03PkgFiles, "VFS"),
+		derived: map[*ssa.Function][]c03Effect{}, implFn: map[*ssa.Function]string{},
+		vfsEff: map[string][]c03Effect{}, invokes: map[string][]CallSite{},
+		rootIdx: map[ssa.Instruction]map[int]*c03Root{}}
+	for _, T := range p.Implementers(m.vfs, false) {
+		for i := 0; i < m.vfs.NumMethods(); i++ {
+			name := m.vfs.Method(i).Name()
+			if f := p.LookupFunc(RelPkg(T.Obj().Pkg()), T.Obj().Name(), name); f != nil {
+				m.implFn[f] = name
+			} else if f, _ := p.MethodOf(T, name); f != nil {
+				m.implFn[f] = name // promoted method: the wrapper forwards its parameters
+			}
+		}
+	}
+	// pass 1: primitive sites and VFS invoke sites
+	type work struct {
+		c    CallSite
+		effs []c03Effect
+	}
+	var queue []work
+	memo := map[*ssa.Function][]c03Effect{}
+	for _, fn := range p.AllFuncs {
+		for _, c := range CallsIn(fn, false) {
+			if c.Common().IsInvoke() {
+				if name := c.MethodName(); m.vfs.NumMethods() > 0 && c.IsMethod(name, m.vfs) {
+					for i := 0; i < m.vfs.NumMethods(); i++ {
+						if m.vfs.Method(i).Name() == name {
+							m.invokes[name] = append(m.invokes[name], c)
+						}
+					}
+				}
+				continue
+			}
+			f := c.Common().StaticCallee()
+			if f == nil {
+				continue
+			}
+			effs, seen := memo[f]
+			if !seen {
+				effs = c03Prims[c03PrimKey(f)]
+				memo[f] = effs
+			}
+			switch {
+			case funcIs(f, "os", "", "OpenFile") && len(c.Args()) == 3:
+				effs = c03OpenEffects(0, c.Args()[1], "os.OpenFile")
+			case funcIs(f, c03Sftp, "Client", "OpenFile") && len(c.Args()) == 3:
+				effs = c03OpenEffects(1, c.Args()[2], "sftp.Client.OpenFile")
+			}
+			if len(effs) > 0 {
+				queue = append(queue, work{c, effs})
+			}
+		}
+	}
+	addRoot := func(c CallSite, e c03Effect) {
+		byArg := m.rootIdx[c.Instr]
+		if byArg == nil {
+			byArg = map[int]*c03Root{}
+			m.rootIdx[c.Instr] = byArg
+		}
+		rt := byArg[e.arg]
+		if rt == nil {
+			rt = &c03Root{c: c, arg: e.arg}
+			byArg[e.arg] = rt
+			m.roots = append(m.roots, rt)
+		}
+		for _, x := range rt.effs {
+			if x.kind == e.kind && x.via == e.via {
+				return
+			}
+		}
+		rt.effs = append(rt.effs, e)
+	}
+	for n := 0; len(queue) > 0 && n < 200000; n++ {
+		w := queue[0]
+		queue = queue[1:]
+		args := w.c.Args()
+		for _, e := range w.effs {
+			if e.arg >= len(args) {
+				continue
+			}
+			prm := c03PathParam(args[e.arg])
+			if prm == nil {
+				addRoot(w.c, e)
+				continue
+			}
+			owner := prm.Parent()
+			ne := c03Effect{c03ParamIndex(prm), e.kind, e.via}
+			dup := false
+			for _, x := range m.derived[owner] {
+				if x == ne {
+					dup = true
+				}
+			}
+			if dup || ne.arg < 0 {
+				continue
+			}
+			if _, known := m.derived[owner]; !known {
+				m.order = append(m.order, owner)
+			}
+			m.derived[owner] = append(m.derived[owner], ne)
+			for _, caller := range p.StaticCallers(owner) {
+				queue = append(queue, work{caller, []c03Effect{ne}})
+			}
+			if name, isImpl := m.implFn[owner]; isImpl {
+				m.vfsEff[name] = append(m.vfsEff[name], ne)
+				for _, iv := range m.invokes[name] {
+					queue = append(queue, work{iv, []c03Effect{ne}})
+				}
+			}
+		}
+	}
+	return m
+}
+
+func (m *c03DestroyModel) isTempName(v ssa.Value, top *ssa.Function) bool {
+	c, ok := originValue(v).(*ssa.Call)
+	if !ok || !c.Call.IsInvoke() || c.Call.Method.Name() != "Name" {
+		return false
+	}
+	ex, ok := originValue(c.Call.Value).(*ssa.Extract)
+	if !ok || ex.Index != 0 {
+		return false
+	}
+	tc, ok := ex.Tuple.(*ssa.Call)
+	if !ok {
+		return false
+	}
+	return (CallSite{tc.Parent(), tc}).IsMethod("TempFile", m.vfs) && TopFunc(tc.Parent()) == top
+}
+
+// c03UnderFreshDir: the path is the directory os.MkdirTemp just created, or a
+// Join of it with constant elements that cannot climb out of it.
+func c03UnderFreshDir(v ssa.Value, depth int) bool {
+	v = originValue(v)
+	if ex, ok := v.(*ssa.Extract); ok && ex.Index == 0 {
+		if c, ok := ex.Tuple.(*ssa.Call); ok && funcIs(c.Call.StaticCallee(), "os", "", "MkdirTemp") {
+			return true
+		}
+	}
+	if depth > 4 {
+		return false
+	}
+	j, ok := v.(*ssa.Call)
+	if !ok || !funcIs(j.Call.StaticCallee(), "path/filepath", "", "Join") || len(j.Call.Args) != 1 {
+		return false
+	}
+	el := c03VarargElems(j.Call.Args[0])
+	if len(el) < 2 || !c03UnderFreshDir(el[0], depth+1) {
+		return false
+	}
+	for _, e := range el[1:] {
+		s, ok := ConstString(e)
+		if !ok || strings.Contains(s, "..") {
+			return false
+		}
+	}
+	return true
+}
+
+// c03ImplMethodOf: top is the method the named interface's single method
+// dispatches to for some module type (e.g. the RemoveBlobs of a BlobRemover).
+func c03ImplMethodOf(top *ssa.Function, iface *types.Interface) bool {
+	recv := top.Signature.Recv()
+	if recv == nil || iface.NumMethods() != 1 || top.Name() != iface.Method(0).Name() {
+		return false
+	}
+	return types.Implements(recv.Type(), iface) || types.Implements(types.NewPointer(recv.Type()), iface)
+}
+
+// c03OnlyReachedFrom: every way of running fn starts in a function satisfying
+// pred: fn's top-level function satisfies it, or that function is only ever
+// called statically (never used as a value, not reachable through an
+// interface) from functions for which the same holds.
+func c03OnlyReachedFrom(p *Program, fn *ssa.Function, pred func(*ssa.Function) bool, depth int) bool {
+	top := TopFunc(fn)
+	if pred(top) {
+		return true
+	}
+	if depth > 4 {
+		return false
+	}
+	callers := p.StaticCallers(top)
+	if len(callers) == 0 || len(p.FuncValueUses(top)) > 0 || len(p.InvokeSites(top)) > 0 {
+		return false
+	}
+	for _, c := range callers {
+		if TopFunc(c.Fn) == top {
+			continue // recursion
+		}
+		if !c03OnlyReachedFrom(p, c.Fn, pred, depth+1) {
+			return false
+		}
+	}
+	return true
+}
+
+// c03CreationSite: the MakeClosure instruction that creates function literal
+// lit in its parent (nil for declared functions or when not unique).
+func c03CreationSite(lit *ssa.Function) ssa.Instruction {
+	par := lit.Parent()
+	if par == nil {
+		return nil
+	}
+	var found ssa.Instruction
+	for _, b := range par.Blocks {
+		for _, in := range b.Instrs {
+			if mc, ok := in.(*ssa.MakeClosure); ok && mc.Fn == ssa.Value(lit) {
+				if found != nil {
+					return nil
+				}
+				found = mc
+			}
+		}
+	}
+	return found
+}
+
+func c03KindsOf(effs []c03Effect) string {
+	var s []string
+	for _, e := range effs {
+		s = append(s, e.kind.String()+" via "+e.via)
+	}
+	return strings.Join(s, "; ")
+}
+
+func c03SiteName(c CallSite, arg int) string {
+	how := ""
+	if c.IsGo() {
+		how = "go "
+	} else if c.IsDefer() {
+		how = "defer "
+	}
+	return FuncKey(TopFunc(c.Fn)) + "#" + how + c.CalleeKey() + "(arg" + fmt.Sprint(arg) + ")"
+}
+
+// ---------------------------------------------------------------------------
+// F-destroy
+
+func c03RuleFDestroy(p *Program, r *Reporter, m *c03DestroyModel) {
+	const rule = "F-destroy"
+	r.Floor(rule, 14)
+	remover := p.Iface("pkg/blobserver", "BlobRemover")
+	receiver := p.Iface("pkg/blobserver", "BlobReceiver")
+	isRemoval := func(top *ssa.Function) bool { return c03ImplMethodOf(top, remover) }
+	scope := map[string]bool{c03PkgFiles: true, "pkg/blobserver/localdisk": true}
+	for f := range m.implFn {
+		if f.Pkg != nil {
+			scope[RelPkg(f.Pkg.Pkg)] = true
+		}
+	}
+	inScope := func(fn *ssa.Function) bool {
+		top := TopFunc(fn)
+		return top.Pkg != nil && scope[RelPkg(top.Pkg.Pkg)]
+	}
+	blobTree := func(v ssa.Value) bool {
+		switch x := v.(type) {
+		case *ssa.Call:
+			if x.Call.IsInvoke() {
+				return x.Call.Method.Name() == "ReadDirNames"
+			}
+			f := x.Call.StaticCallee()
+			return f != nil && (f == p.Func(c03PkgFiles, "Storage", "blobPath") || f == p.Func(c03PkgFiles, "Storage", "blobDirectory") || f == p.Func(c03PkgFiles, "", "blobFileBaseName"))
+		case *ssa.FieldAddr:
+			return fieldName(x.X.Type(), x.Field) == "root"
+		case *ssa.Field:
+			return fieldName(x.X.Type(), x.Field) == "root"
+		case *ssa.Parameter:
+			return x != x.Parent().Params[0] || x.Parent().Signature.Recv() == nil // caller-provided path material (not the receiver itself)
+		}
+		return false
+	}
+
+	// (a) the root sites
+	n := 0
+	for _, rt := range m.roots {
+		c := rt.c
+		isVFSSite := c.Common().IsInvoke() || m.implFn[c.Callee()] != ""
+		if !inScope(c.Fn) && !isVFSSite {
+			continue
+		}
+		n++
+		top := TopFunc(c.Fn)
+		P := c.Args()[rt.arg]
+		construct := c03SiteName(c, rt.arg)
+		site := p.Pos(c.Pos())
+		kinds := c03KindsOf(rt.effs)
+		if !inScope(c.Fn) {
+			r.Violation(rule, construct, site, "a path-destroying method of a files.VFS is called outside the file-per-blob store ("+kinds+"): blob files are destroyed behind the store's back")
+			continue
+		}
+		if _, isImpl := m.implFn[top]; isImpl {
+			r.Undecided(rule, construct, site, "a files.VFS implementation destroys a path that is not the argument it was given ("+kinds+"); callers of the VFS method cannot be held responsible for it")
+			continue
+		}
+		switch {
+		case m.isTempName(P, top):
+			r.OK(rule, construct, site, "the path is Name() of the file this very call obtained from VFS.TempFile: only the receive's own temp file is affected ("+kinds+")")
+			continue
+		case c03UnderFreshDir(P, 0):
+			r.OK(rule, construct, site, "the path lies in the directory os.MkdirTemp created in this call: nothing acknowledged lives there ("+kinds+")")
+			continue
+		case c03OnlyReachedFrom(p, c.Fn, isRemoval, 0):
+			r.OK(rule, construct, site, "reached only from "+remover.Method(0).Name()+" of a blobserver.BlobRemover: destroying the blob is what was asked for ("+kinds+")")
+			continue
+		}
+		// not the own temp file, not in the removal entry point: only harmless kinds may remain
+		bad, undec := "", ""
+		listed, recursive := false, false
+		// the site itself, or (for a site inside function literals) the points at
+		// which the enclosing literals are created: a literal runs after its creation
+		for at := ssa.Instruction(c.Instr); at != nil && !listed; at = c03CreationSite(at.Parent()) {
+			for _, lc := range CallsIn(at.Parent(), false) {
+				if lc.Value() != nil && lc.IsMethod("ReadDirNames", m.vfs) && sameOrigin(lc.Args()[1], P) {
+					if ok, _ := SuccessDominates(lc.Value(), at); ok {
+						listed = true
+					}
+				}
+			}
+		}
+		for _, e := range rt.effs {
+			switch e.kind {
+			case c03KRmdir:
+				// removes an empty directory or nothing
+			case c03KUnlink:
+				if !listed {
+					bad = e.kind.String() + " via " + e.via + " of a path that is not known to be a directory (no successful VFS.ReadDirNames of the same path dominates the call)"
+				}
+			case c03KRenameDst:
+				if c03ImplMethodOf(top, receiver) && c.Fn == top {
+					continue // the atomic publish; source, destination and order are F-order's
+				}
+				bad = e.kind.String() + " via " + e.via + " outside the receive path"
+			default:
+				bad = e.kind.String() + " via " + e.via
+				recursive = recursive || e.kind == c03KRmtree
+			}
+		}
+		if bad != "" && !c03Depends(P, blobTree) {
+			undec = "the destroyed path is not related to the blob tree by the analysis (" + bad + ")"
+		}
+		switch {
+		case undec != "":
+			r.Undecided(rule, construct, site, undec)
+		case bad != "":
+			consequence := "a blob acknowledged earlier under this path (the same ref re-uploaded) is gone if the process dies, or the next call fails, right after this one"
+			if recursive && !c03IsBlobPath(p, P) {
+				consequence = "the removal takes along everything below the path, including the blob of a receive that was acknowledged after the path was last inspected"
+			}
+			r.Violation(rule, construct, site, "a path in the blob tree that is neither the receive's own temp file nor being removed through RemoveBlobs can be destroyed here: "+bad+"; "+consequence)
+		case listed:
+			r.OK(rule, construct, site, "only an EMPTY directory can disappear: the path was listed by a successful VFS.ReadDirNames and every implementation reaches a non-recursive primitive ("+kinds+")")
+		default:
+			r.OK(rule, construct, site, "only harmless effects on a final path: "+kinds+" (rename-over in the receive path is the atomic publish decided by F-order)")
+		}
+	}
+	r.Analysed("path_destroy_sites", n)
+
+	// (b) the pass-through destroyers in scope: all their callers must be visible
+	for _, f := range m.order {
+		if !inScope(f) {
+			continue
+		}
+		construct := FuncKey(f) + "#forwards-path"
+		site := p.Pos(f.Pos())
+		kinds := c03KindsOf(m.derived[f])
+		_, isImpl := m.implFn[f]
+		exported := f.Object() != nil && f.Object().Exported() && (f.Signature.Recv() == nil || NamedOf(f.Signature.Recv().Type()) != nil && NamedOf(f.Signature.Recv().Type()).Obj().Exported())
+		switch {
+		case isImpl:
+			r.OKTable(rule, construct, site, "files.VFS method forwarding its own path argument ("+kinds+"); every interface invoke in the module is classified at its site")
+		case len(p.FuncValueUses(f)) > 0 || f.Parent() == nil && len(p.InvokeSites(f)) > 0:
+			r.Undecided(rule, construct, site, "a function that destroys the path it is given ("+kinds+") is used as a value or through an interface: its callers cannot be enumerated")
+		case exported:
+			r.Undecided(rule, construct, site, "an exported function destroys the path it is given ("+kinds+"): callers outside the analysed packages cannot be classified")
+		default:
+			r.OKTable(rule, construct, site, fmt.Sprintf("forwards its path parameter (%s); its %d static call site(s) are classified", kinds, len(p.StaticCallers(f))))
+		}
+	}
+}
+
+// c03DPkg: fn belongs to package diskpacked.
+func c03DPkg(fn *ssa.Function) bool {
+	top := TopFunc(fn)
+	return top.Pkg != nil && RelPkg(top.Pkg.Pkg) == c03PkgDP
+}
+
+// ---------------------------------------------------------------------------
+// D-destroy
+
+// c03Mut is one call that can change the bytes or the write position of an
+// *os.File.
+type c03Mut struct {
+	c      CallSite
+	h      ssa.Value // the handle
+	op     string    // write, write-n, writeat, truncate, seek, fd, hook
+	off    ssa.Value // writeat/seek/truncate/hook: position
+	n      ssa.Value // write-n/hook: length
+	whence ssa.Value
+}
+
+func c03IsOSFile(t types.Type) bool {
+	pt, ok := t.(*types.Pointer)
+	return ok && IsNamed(pt.Elem(), "os", "File")
+}
+
+// c03FileArg: the value is an *os.File, possibly converted to an interface;
+// writable tells whether that interface can write.
+func c03FileArg(v ssa.Value) (h ssa.Value, isFile, writable bool) {
+	if mi, ok := v.(*ssa.MakeInterface); ok {
+		if !c03IsOSFile(mi.X.Type()) {
+			return nil, false, false
+		}
+		for _, name := range []string{"Write", "WriteAt", "WriteString", "ReadFrom", "Truncate"} {
+			if c03HasMethod(mi.Type(), name) {
+				return mi.X, true, true
+			}
+		}
+		return mi.X, true, false
+	}
+	if c03IsOSFile(v.Type()) {
+		return v, true, true
+	}
+	return nil, false, false
+}
+
+func c03Mutators(fn *ssa.Function) []c03Mut {
+	var out []c03Mut
+	for _, c := range CallsIn(fn, false) {
+		args := c.Args()
+		f := c.Common().StaticCallee()
+		if f != nil && f.Signature.Recv() != nil && c03IsOSFile(f.Signature.Recv().Type()) && len(args) > 0 {
+			mu := c03Mut{c: c, h: args[0]}
+			switch f.Name() {
+			case "Write", "WriteString", "ReadFrom":
+				mu.op = "write"
+			case "WriteAt":
+				mu.op, mu.off = "writeat", args[2]
+			case "Truncate":
+				mu.op, mu.off = "truncate", args[1]
+			case "Seek":
+				mu.op, mu.off, mu.whence = "seek", args[1], args[2]
+			case "Fd", "SyscallConn":
+				mu.op = "fd"
+			default:
+				continue
+			}
+			out = append(out, mu)
+			continue
+		}
+		if _, isBuiltin := c.Common().Value.(*ssa.Builtin); isBuiltin {
+			continue
+		}
+		for i, a := range args {
+			h, isFile, writable := c03FileArg(a)
+			if !isFile || !writable {
+				continue
+			}
+			mu := c03Mut{c: c, h: h}
+			_, asIface := a.(*ssa.MakeInterface)
+			switch {
+			case asIface && funcIs(f, "io", "", "CopyN") && i == 0:
+				mu.op, mu.n = "write-n", args[2]
+			case asIface:
+				mu.op = "write"
+			default:
+				// the handle itself is handed on
+				mu.op = "hook"
+				var ints []ssa.Value
+				for j, b := range args {
+					if bt, ok := b.Type().Underlying().(*types.Basic); ok && j != i && bt.Info()&types.IsInteger != 0 {
+						ints = append(ints, b)
+					}
+				}
+				if len(ints) == 2 {
+					mu.off, mu.n = ints[0], ints[1]
+				}
+			}
+			out = append(out, mu)
+			break
+		}
+	}
+	return out
+}
+
+// c03HandleClass: 'W' the storage's live append handle (field writer), 'L' a
+// handle opened writable in this function, 'R' opened read-only, 'T' a fresh
+// temp file, 'P' a parameter, 'U' unknown.
+func c03HandleClass(h ssa.Value) (class byte, open *ssa.Call, prm *ssa.Parameter) {
+	o := originValue(h)
+	switch x := o.(type) {
+	case *ssa.Parameter:
+		return 'P', nil, x
+	case *ssa.UnOp:
+		if x.Op == token.MUL {
+			if fa, ok := x.X.(*ssa.FieldAddr); ok && fieldName(fa.X.Type(), fa.Field) == "writer" && IsNamed(fa.X.Type().Underlying().(*types.Pointer).Elem(), modPrefix+c03PkgDP, "storage") {
+				return 'W', nil, nil
+			}
+		}
+	case *ssa.Extract:
+		c, ok := x.Tuple.(*ssa.Call)
+		if !ok || x.Index != 0 {
+			return 'U', nil, nil
+		}
+		f := c.Call.StaticCallee()
+		switch {
+		case funcIs(f, "os", "", "Open"):
+			return 'R', c, nil
+		case funcIs(f, "os", "", "CreateTemp"):
+			return 'T', c, nil
+		case funcIs(f, "os", "", "Create"):
+			return 'L', c, nil
+		case funcIs(f, "os", "", "OpenFile"):
+			if fl, ok := ConstInt(c.Call.Args[1]); ok && fl&3 == 0 {
+				return 'R', c, nil
+			}
+			return 'L', c, nil
+		}
+	}
+	return 'U', nil, nil
+}
+
+func c03ConstIs(v ssa.Value, want int64) bool {
+	c, ok := ConstInt(v)
+	return ok && c == want
+}
+
+// c03LeavesAre: v is exactly the given field of row m (through conversions).
+func c03LeafIsField(v ssa.Value, m ssa.Value, field string) bool {
+	leaves := c03AddLeaves(originValue(v))
+	if len(leaves) != 1 {
+		return false
+	}
+	name, base, ok := c03FieldRead(originValue(leaves[0]))
+	return ok && name == field && c03Holds(base, m)
+}
+
+func c03RuleDDestroy(p *Program, r *Reporter, m *c03DestroyModel) {
+	const rule = "D-destroy"
+	r.Floor(rule, 13)
+	d := c03DPAnchors(p)
+	ap := d.append
+	remover := p.Iface("pkg/blobserver", "BlobRemover")
+	isRemoval := func(top *ssa.Function) bool { return c03ImplMethodOf(top, remover) }
+	metaFn := p.Func(c03PkgDP, "storage", "meta")
+	filenameFn := p.Func(c03PkgDP, "storage", "filename")
+
+	// ---- (1) path level: nothing unlinks, renames or truncates a pack by name
+	nPath := 0
+	for _, rt := range m.roots {
+		if !c03DPkg(rt.c.Fn) {
+			continue
+		}
+		c := rt.c
+		P := c.Args()[rt.arg]
+		construct := c03SiteName(c, rt.arg)
+		site := p.Pos(c.Pos())
+		onlyOpen := true
+		for _, e := range rt.effs {
+			if e.kind != c03KWriteOpen {
+				onlyOpen = false
+			}
+		}
+		if onlyOpen {
+			// a writable handle: where may it go?
+			esc := ""
+			if v := c.Value(); v != nil {
+				esc = c03HandleEscapes(ResultValue(v, 0))
+			} else {
+				esc = "opened by a go/defer statement"
+			}
+			if esc != "" {
+				r.Undecided(rule, construct, site, "a pack file is opened writable and the handle "+esc+": the calls that write through it cannot be enumerated")
+			} else {
+				r.OKTable(rule, construct, site, "opened writable without O_TRUNC; the handle stays in this function or becomes storage.writer, and every call that writes, seeks or truncates through either is classified below")
+			}
+			continue
+		}
+		nPath++
+		kinds := c03KindsOf(rt.effs)
+		if c03StaticCall(P, filenameFn) != nil {
+			r.Violation(rule, construct, site, "a pack file is destroyed by name ("+kinds+"): every blob acknowledged into it is lost and Reindex cannot bring it back (the pack files are the only source of truth)")
+		} else {
+			r.Undecided(rule, construct, site, "package diskpacked destroys a path ("+kinds+") that the analysis cannot tell apart from a pack file or the index")
+		}
+	}
+	for _, f := range m.order {
+		if c03DPkg(f) {
+			nPath++
+			if len(p.FuncValueUses(f)) > 0 || f.Object() != nil && f.Object().Exported() {
+				r.Undecided(rule, FuncKey(f)+"#forwards-path", p.Pos(f.Pos()), "a function of package diskpacked destroys the path it is given ("+c03KindsOf(m.derived[f])+") and its callers cannot be enumerated")
+			}
+		}
+	}
+	r.Check(nPath == 0, rule, c03PkgDP+"#no-path-level-destroyer", p.Pos(ap.Pos()),
+		"no function of package diskpacked removes, renames, truncates or re-creates a file by path (the only path-level write access is OpenFile without O_TRUNC)",
+		fmt.Sprintf("%d path-level destroyer(s) in package diskpacked, see the individual reports", nPath))
+
+	// ---- (2) handle level
+	var wWrites []ssa.Instruction // writes through the live handle in append
+	var sizeStores []ssa.Instruction
+	isSizeAddr := func(v ssa.Value) bool {
+		fa, ok := v.(*ssa.FieldAddr)
+		return ok && fieldName(fa.X.Type(), fa.Field) == "size" && originValue(fa.X) == ssa.Value(d.recv)
+	}
+	for _, mu := range c03Mutators(ap) {
+		if cl, _, _ := c03HandleClass(mu.h); cl == 'W' && (mu.op == "write" || mu.op == "write-n" || mu.op == "writeat") {
+			wWrites = append(wWrites, mu.c.Instr)
+		}
+	}
+	for _, b := range ap.Blocks {
+		for _, in := range b.Instrs {
+			if st, ok := in.(*ssa.Store); ok && isSizeAddr(st.Addr) {
+				sizeStores = append(sizeStores, st)
+			}
+		}
+	}
+	// rollbackOK: x is storage.size as loaded before this call wrote anything,
+	// and the call cannot acknowledge once it got to at.
+	rollbackOK := func(x ssa.Value, at ssa.Instruction) (bool, string) {
+		if at.Parent() != ap {
+			return false, "not in append itself (a function literal's paths are not followed)"
+		}
+		// the end of the acknowledged data: s.size, or the handle's own position, ...
+		var captured ssa.Instruction
+		switch o := originValue(x).(type) {
+		case *ssa.UnOp:
+			if o.Op == token.MUL && isSizeAddr(o.X) {
+				captured = o
+			}
+		case *ssa.Extract:
+			if sk, ok := o.Tuple.(*ssa.Call); ok && o.Index == 0 && funcIs(sk.Call.StaticCallee(), "os", "File", "Seek") && sk.Parent() == ap {
+				if cl, _, _ := c03HandleClass(sk.Call.Args[0]); cl == 'W' && c03ConstIs(sk.Call.Args[1], 0) && (c03ConstIs(sk.Call.Args[2], 1) || c03ConstIs(sk.Call.Args[2], 2)) {
+					captured = sk
+				}
+			}
+		}
+		if captured == nil {
+			return false, "the offset is neither s.size nor the live handle's position (Seek(0, SeekCurrent/SeekEnd)) as read in this call"
+		}
+		// ... read before this call wrote anything
+		for _, w := range append(append([]ssa.Instruction{}, wWrites...), sizeStores...) {
+			if !Precedes(captured, w) {
+				return false, fmt.Sprintf("the offset is read after (or not before) the write/size update at line %d: it is not the end of the acknowledged data", c03Line(p, w.Pos()))
+			}
+		}
+		reach := ReachableFrom(at, nil)
+		for _, nr := range MaybeNilErrorReturns(ap) {
+			end := ssa.Instruction(nr.Ret)
+			if nr.From != nil && nr.From != nr.Ret.Block() {
+				end = c03Last(nr.From)
+			}
+			if reach[end] || end == at {
+				return false, fmt.Sprintf("a return that may report success (line %d) is reachable afterwards: the blob whose bytes are cut off may be acknowledged", c03Line(p, nr.Ret.Pos()))
+			}
+		}
+		return true, ""
+	}
+
+	type frame struct {
+		at     ssa.Instruction // the instruction, in the function whose facts apply
+		h      ssa.Value
+		off, n ssa.Value
+		whence ssa.Value
+		sub    func(ssa.Value) ssa.Value // callee-frame value -> value in at's frame (identity at depth 0)
+	}
+	ident := func(v ssa.Value) ssa.Value { return v }
+	// substFor maps values of owner's frame to the frame of a call site with the given arguments:
+	// constants stay, owner's parameters become the arguments, everything else is lost (nil).
+	substFor := func(owner *ssa.Function, args []ssa.Value) func(ssa.Value) ssa.Value {
+		return func(v ssa.Value) ssa.Value {
+			if v == nil {
+				return nil
+			}
+			if _, isC := v.(*ssa.Const); isC {
+				return v
+			}
+			if q, ok := originValue(v).(*ssa.Parameter); ok && q.Parent() == owner {
+				if j := c03ParamIndex(q); j >= 0 && j < len(args) {
+					return args[j]
+				}
+			}
+			return nil
+		}
+	}
+	var classify func(mu c03Mut, fr frame, depth int) (st Status, table bool, detail string)
+	classify = func(mu c03Mut, fr frame, depth int) (Status, bool, string) {
+		fn := fr.at.Parent()
+		class, open, prm := c03HandleClass(fr.h)
+		neutralSeek := mu.op == "seek" && fr.off != nil && c03ConstIs(fr.off, 0) && fr.whence != nil && (c03ConstIs(fr.whence, 1) || c03ConstIs(fr.whence, 2))
+		switch class {
+		case 'R', 'T':
+			return Discharged, true, "handle opened read-only (or a fresh temp file): the call cannot change a pack"
+		case 'W':
+			switch {
+			case neutralSeek:
+				return Discharged, true, "position query / seek to the end on the live append handle"
+			case TopFunc(fn) != ap:
+				if q, isPrm := originValue(fr.off).(*ssa.Parameter); (mu.op == "seek" || mu.op == "truncate") && fr.off != nil && isPrm && q.Parent() == fn && fn.Parent() == nil && depth < 2 {
+					callers := p.StaticCallers(fn)
+					if len(callers) > 0 && len(p.FuncValueUses(fn)) == 0 && len(p.InvokeSites(fn)) == 0 {
+						for _, cs := range callers {
+							step := substFor(fn, cs.Args())
+							sub := func(v ssa.Value) ssa.Value { return step(fr.sub(v)) }
+							st, _, dt := classify(mu, frame{cs.Instr, fr.h, step(fr.off), step(fr.n), step(fr.whence), sub}, depth+1)
+							if st != Discharged {
+								return st, false, "via the call at line " + fmt.Sprint(c03Line(p, cs.Pos())) + ": " + dt
+							}
+						}
+						return Discharged, false, fmt.Sprintf("roll-back helper: at each of its %d call site(s) the offset passed is s.size as loaded before append's first write and no success return is reachable afterwards", len(callers))
+					}
+				}
+				return Violated, false, "the live append handle (storage.writer) is " + c03OpWord(mu.op) + " outside append: acknowledged extents of the current pack can be overwritten or cut off"
+			case mu.op == "write" || mu.op == "write-n":
+				return Discharged, true, "append writes at the live handle's position; every call that moves that position is classified (and D-order decides write→sync→index)"
+			case mu.op == "seek" && fr.whence != nil && c03ConstIs(fr.whence, 0), mu.op == "truncate":
+				if fr.off == nil {
+					return Undecided, false, "offset not followed"
+				}
+				if fr.at.Parent() != ap {
+					return Undecided, false, "the live append handle is " + c03OpWord(mu.op) + " inside a function literal of append; whether this is the roll-back of a failed append (no success return afterwards) is not followed there"
+				}
+				ok, why := rollbackOK(fr.off, fr.at)
+				if ok {
+					return Discharged, false, "roll-back of the current, failed append: the offset is s.size as loaded before this call's first write and no return that may report success is reachable afterwards"
+				}
+				return Violated, false, "the live append handle is " + c03OpWord(mu.op) + " and this is not the roll-back of the current failed append (" + why + "): blobs acknowledged earlier are overwritten by the next append or cut off"
+			case mu.op == "fd" || mu.op == "hook":
+				return Undecided, false, "the live append handle is handed to code that is not followed"
+			}
+			return Violated, false, "the live append handle is " + c03OpWord(mu.op) + " in append at a position other than its end"
+		case 'L':
+			if neutralSeek {
+				return Discharged, true, "position query / seek to the end on a freshly opened handle"
+			}
+			if !c03OnlyReachedFrom(p, fn, isRemoval, 0) {
+				return Violated, false, "a pack file opened writable is " + c03OpWord(mu.op) + " in a function that is not reached only from RemoveBlobs: acknowledged bytes are destroyed without a removal request"
+			}
+			// the index row of the blob being removed
+			var row ssa.Value
+			for _, mc := range CallsIn(fn, false) {
+				if mc.Callee() != metaFn || mc.Value() == nil || len(mc.Args()) != 2 {
+					continue
+				}
+				if _, isPrm := originValue(mc.Args()[1]).(*ssa.Parameter); !isPrm {
+					continue
+				}
+				if ok, _ := SuccessDominates(mc.Value(), fr.at); ok {
+					row = ResultValue(mc.Value(), 0)
+				}
+			}
+			if row == nil {
+				return Violated, false, "the call is not behind a successful meta(<ref parameter>) lookup: the extent it destroys is not the extent of the blob being removed"
+			}
+			if open != nil {
+				fnc := c03StaticCall(open.Call.Args[0], filenameFn)
+				okFile := false
+				if fnc != nil {
+					if name, base, ok := c03FieldRead(originValue(fnc.Call.Args[1])); ok && name == "file" && c03Holds(base, row) {
+						okFile = true
+					}
+				}
+				if !okFile {
+					return Violated, false, "the file opened writable is not filename(<row>.file) of the looked-up row: another pack's bytes are destroyed"
+				}
+			}
+			isOff := func(v ssa.Value) bool { return v != nil && c03LeafIsField(v, row, "offset") }
+			isLen := func(v ssa.Value) bool { return v != nil && c03LeafIsField(v, row, "size") }
+			switch mu.op {
+			case "writeat":
+				dep := fr.off != nil && c03Depends(fr.off, func(v ssa.Value) bool {
+					name, base, ok := c03FieldRead(v)
+					return ok && name == "offset" && c03Holds(base, row)
+				})
+				if dep {
+					return Discharged, false, "WriteAt at a position computed from the removed blob's row (offset minus the header length; D-reindex-agreement#walk-back-length decides the length)"
+				}
+				return Violated, false, "WriteAt at a position that does not derive from the removed blob's index row"
+			case "seek":
+				if c03ConstIs(fr.whence, 0) && isOff(fr.off) {
+					return Discharged, false, "Seek(row.offset, SeekStart): the start of the removed blob's body"
+				}
+				return Violated, false, "the handle is positioned somewhere other than the removed blob's row.offset"
+			case "write-n":
+				if !isLen(fr.n) {
+					return Violated, false, "the number of bytes overwritten is not the removed blob's row.size: the zero fill runs into the next (acknowledged) entry or stops short"
+				}
+				for _, sk := range c03Mutators(mu.c.Fn) {
+					if sk.op == "seek" && sk.c.Value() != nil && sameOrigin(sk.h, mu.h) && c03ConstIs(sk.whence, 0) && isOff(fr.sub(sk.off)) {
+						if ok, _ := SuccessDominates(sk.c.Value(), mu.c.Instr); ok {
+							return Discharged, false, "exactly row.size bytes are overwritten behind a successful Seek(row.offset, SeekStart) on the same handle"
+						}
+					}
+				}
+				return Violated, false, "row.size bytes are overwritten but not behind a successful Seek(row.offset, SeekStart) on the same handle: the wrong extent is zeroed"
+			case "hook":
+				if isOff(fr.off) && isLen(fr.n) {
+					return Discharged, false, "the hook receives exactly (row.offset, row.size) of the removed blob"
+				}
+				return Violated, false, "the handle is handed on with an extent other than (row.offset, row.size) of the removed blob"
+			case "fd":
+				return Undecided, false, "raw descriptor of a writable pack handle"
+			}
+			return Violated, false, "a pack opened writable is " + c03OpWord(mu.op) + " without a bound: bytes of other, acknowledged blobs are destroyed"
+		case 'P':
+			owner := prm.Parent()
+			idx := c03ParamIndex(prm)
+			uses := p.FuncValueUses(owner)
+			callers := p.StaticCallers(owner)
+			if len(uses) > 0 {
+				for _, u := range uses {
+					st, ok := u.(*ssa.Store)
+					if ok {
+						_, ok = st.Addr.(*ssa.Global)
+					}
+					if !ok {
+						return Undecided, false, "the handle is a parameter of a function that is used as a value other than by installing it in a package-level hook variable"
+					}
+				}
+				if len(callers) == 0 {
+					return Discharged, true, "parameter of a function that is only installed in a package-level hook variable; the calls through that variable are classified with the handle and extent they pass"
+				}
+			}
+			if len(callers) == 0 || depth > 1 {
+				return Undecided, false, "the handle is a parameter and the callers are not followed"
+			}
+			worst, wt, wd := Discharged, true, fmt.Sprintf("classified at the %d call site(s) of %s", len(callers), FuncKey(owner))
+			for _, cs := range callers {
+				args := cs.Args()
+				if idx >= len(args) {
+					return Undecided, false, "call site does not pass the handle"
+				}
+				step := substFor(owner, args)
+				sub := func(v ssa.Value) ssa.Value { return step(fr.sub(v)) }
+				st, tb, dt := classify(mu, frame{cs.Instr, args[idx], step(fr.off), step(fr.n), step(fr.whence), sub}, depth+1)
+				if st != Discharged {
+					return st, false, "via the call at line " + fmt.Sprint(c03Line(p, cs.Pos())) + ": " + dt
+				}
+				if !tb {
+					wt, wd = false, "at the call site(s) of "+FuncKey(owner)+": "+dt
+				}
+			}
+			return worst, wt, wd
+		}
+		if mu.op == "seek" {
+			return Discharged, true, "Seek on a handle that is neither storage.writer nor opened writable here"
+		}
+		return Undecided, false, "the origin of the *os.File that is " + c03OpWord(mu.op) + " cannot be determined"
+	}
+
+	nMut := 0
+	for _, fn := range p.FuncsIn(c03PkgDP) {
+		for _, mu := range c03Mutators(fn) {
+			if cl, _, _ := c03HandleClass(mu.h); (cl == 'R' || cl == 'T' || cl == 'U') && mu.op == "seek" {
+				continue // reader positioning
+			}
+			nMut++
+			st, table, detail := classify(mu, frame{mu.c.Instr, mu.h, mu.off, mu.n, mu.whence, ident}, 0)
+			construct := FuncKey(TopFunc(fn)) + "#" + mu.op + "#" + mu.c.CalleeKey()
+			site := p.Pos(mu.c.Pos())
+			switch {
+			case st == Discharged && table:
+				r.OKTable(rule, construct, site, detail)
+			case st == Discharged:
+				r.OK(rule, construct, site, detail)
+			case st == Violated:
+				r.Violation(rule, construct, site, detail)
+			default:
+				r.Undecided(rule, construct, site, detail)
+			}
+		}
+	}
+	r.Analysed("file_mutator_sites", nMut)
+
+	// ---- (3) index rows are deleted only for the refs RemoveBlobs was given
+	batch := p.Iface("pkg/sorted", "BatchMutation")
+	nDel := 0
+	for _, fn := range p.FuncsIn(c03PkgDP) {
+		for _, c := range CallsIn(fn, false) {
+			if !c.Common().IsInvoke() {
+				continue
+			}
+			name := c.MethodName()
+			isDel := name == "Delete" && (c.IsMethod(name, d.kv) || c.IsMethod(name, batch))
+			isWipe := name == "Wipe" && c03HasMethod(c.Common().Value.Type(), "Wipe") && !isDel
+			if !isDel && !isWipe {
+				continue
+			}
+			nDel++
+			construct := FuncKey(TopFunc(fn)) + "#index." + name
+			site := p.Pos(c.Pos())
+			top := TopFunc(fn)
+			switch {
+			case isWipe:
+				r.Violation(rule, construct, site, "the index is wiped by the store itself: every acknowledged blob disappears from stat/fetch/enumerate until someone reindexes")
+			case !c03OnlyReachedFrom(p, fn, isRemoval, 0):
+				r.Violation(rule, construct, site, "an index row is deleted in a function that is not reached only from RemoveBlobs: an acknowledged, never removed blob disappears from stat/fetch/enumerate")
+			default:
+				var refs *ssa.Parameter
+				if isRemoval(top) {
+					for _, prm := range top.Params {
+						if sl, ok := prm.Type().Underlying().(*types.Slice); ok && IsNamed(sl.Elem(), "perkeep.org/pkg/blob", "Ref") {
+							refs = prm
+						}
+					}
+				}
+				key := c03CallIs(c.Args()[1], "perkeep.org/pkg/blob", "Ref", "String")
+				ok := false
+				switch {
+				case key == nil:
+				case refs != nil:
+					ok = c03Depends(key.Call.Args[0], func(v ssa.Value) bool { return v == ssa.Value(refs) })
+				default:
+					// a helper below RemoveBlobs: the key must be its own ref parameter's
+					_, ok = originValue(key.Call.Args[0]).(*ssa.Parameter)
+				}
+				r.Check(ok, rule, construct, site,
+					"the deleted key is String() of an element of the refs RemoveBlobs was asked to remove",
+					"the deleted index key is not String() of one of the refs RemoveBlobs was asked to remove: another blob's row is lost")
+			}
+		}
+	}
+	if nDel == 0 {
+		r.Violation(rule, c03PkgDP+"#index.Delete", p.Pos(ap.Pos()), "no index row deletion found in package diskpacked (RemoveBlobs must delete the rows of the blobs it removes)")
+	}
+}
+
+func c03OpWord(op string) string {
+	switch op {
+	case "write", "write-n":
+		return "written to"
+	case "writeat":
+		return "overwritten in place (WriteAt)"
+	case "truncate":
+		return "truncated"
+	case "seek":
+		return "repositioned (Seek)"
+	case "fd":
+		return "reduced to its raw descriptor"
+	}
+	return "handed on to code that can write"
+}
+
+// c03HandleEscapes: where else than into local calls and storage.writer a
+// freshly opened handle goes ("" = nowhere).
+func c03HandleEscapes(h ssa.Value) string {
+	if h == nil || h.Referrers() == nil {
+		return ""
+	}
+	for _, u := range *h.Referrers() {
+		switch x := u.(type) {
+		case *ssa.Store:
+			if x.Val != h {
+				continue
+			}
+			if fa, ok := x.Addr.(*ssa.FieldAddr); ok && fieldName(fa.X.Type(), fa.Field) == "writer" {
+				continue
+			}
+			if al, ok := x.Addr.(*ssa.Alloc); ok && plainVariable(al) {
+				continue // a local variable; loads resolve back to h
+			}
+			return "is stored somewhere other than storage.writer"
+		case *ssa.Return:
+			return "is returned"
+		case *ssa.MakeClosure:
+			return "is captured by a function literal"
+		case *ssa.Phi:
+			return "merges with other values"
+		}
+	}
+	return ""
 }
